@@ -537,10 +537,11 @@ pub fn drive(vectors: &str, seed: u64, out: &str, thorough: bool) {
       let mut docs = rule_docs(ls, variant, variant % 2 == 0);
       // every third rule set: the first rule is confined to `src/**` - a glob relative to the project directory, which
       // holds the text in the command line's project (src/t.*) and in the language server's (src/<case>/t.*) alike
-      // one rule set in four carries 13 more rules that match nothing: with the others that makes more rule-test files than
+      // two rule sets in four carry more rules that match nothing: with the others that makes more rule-test files than
       // `sg test` has worker threads (at most 12), and every one of them still gets its verdict
-      if variant % 4 == 2 {
-        for j in 0..13 {
+      if variant % 4 >= 2 {
+        // (14 and 9 more: with the 11 others that is 25 and 20 test files - neither a multiple of the 12 worker threads)
+        for j in 0..(if variant % 4 == 2 { 14 } else { 9 }) {
           docs.push(json!({"id": format!("filler-{j}"), "language": ls.lang, "rule": {"pattern": format!("filler_{j}_never($A)")}, "message": "never", "severity": "warning"}));
         }
       }
